@@ -365,13 +365,14 @@ class Gen:
         if k < 0.49 and 'figure' in f and depth == 0:
             return Figure(self.words(1, 3, 'u'), '%s.png' % self.word('u'), r.choice([None, 'T ' + self.word('u')]))
         if k < 0.56 and 'codeblock' in f:
-            fenced = r.random() < 0.6 or depth > 0
+            fenced = r.random() < 0.6 or (depth > 0 and not ('nested-indented' in f and r.random() < 0.5))
             if 'indented-only' in f:         # plain Markdown has no fences
                 if depth > 0:
                     return Para(self.inlines())
                 fenced = False
             # an indented block right after a list is a continuation paragraph there: keep raw-looking tags inside fences only
-            pool = ['code %s();' % self.word('c'), 'x = a & b;', '*not emph* %s' % self.word('c'), '# not heading'] + (['  <tag attr="%s">' % self.word('c')] if fenced else [])
+            pool = ['code %s();' % self.word('c'), 'x = a & b;', '*not emph* %s' % self.word('c'), '# not heading'] + (['  <tag attr="%s">' % self.word('c')] if fenced else []) + \
+                   ([' one = %s;' % self.word('c'), '   three(%s)' % self.word('c')] if 'nested-indented' in f else [])
             lines = [r.choice(pool) for _ in range(r.randint(1, 3))]
             return CodeBlock(lines, r.choice([None, None, 'c', 'python']) if fenced else None, fenced)
         if k < 0.66 and 'quote' in f:
